@@ -98,10 +98,16 @@ def ballVgrad (origin : List α) (radius : α) (x : List α) : α × List α :=
 /-- `::vgrad(const linear_t&, x, gx)` (constraint.cpp:75-82) -/
 def linVgrad (q : List α) (r : α) (x : List α) : α × List α := (dot q x + r, q)
 
-/-- `::vgrad(const quadratic_t&, x, gx)` (constraint.cpp:84-93) -/
+/-- `P.transpose() * x` for a matrix given by its rows, `n` columns -/
+def matTVec (n : Nat) (P : List (List α)) (x : List α) : List α :=
+  (List.range n).map (fun j => dot (P.map (fun row => row.getD j 0)) x)
+
+/-- `::vgrad(const quadratic_t&, x, gx)` (constraint.cpp:84-93, after the repair 78c1895):
+    `gx = 0.5 * (P * x + P.transpose() * x) + q` — the gradient of the symmetric part of `P`, so that it is the derivative of the
+    value `0.5 * x.dot(P * x) + q.dot(x) + r` also for a non-symmetric `P` -/
 def quadVgrad (P : List (List α)) (q : List α) (r : α) (x : List α) : α × List α :=
   let Px := matVec P x
-  (half * dot x Px + dot q x + r, vadd Px q)
+  (half * dot x Px + dot q x + r, vadd ((vadd Px (matTVec x.length P x)).map (fun v => half * v)) q)
 
 /-- `nano::vgrad(const constraint_t&, x, gx)`: value and gradient of the constraint function at `x`
     (constraint.cpp:66-125 dispatched by the `std::visit` of lines 268-281; the box kinds at 95-120) -/
